@@ -248,6 +248,19 @@ theorem cyclic_never_returns (H : Hashes) (S : SortFn) (get : Store) (f : Frame)
   | err e => rw [hc] at hb; cases hb
   | ok fs => exact cyclic_never_ok S get f hcyc n fs hc
 
+/-- The fuel the driver supplies is sufficient: when the store holds at most `D.length` frames and `load`
+still answers `fuel` with more fuel than that, a frame below the first one reaches itself — the graph is
+cyclic and (by `cyclic_never_returns`) no amount of fuel gives an answer, as the Go recursion never returns. -/
+theorem fuel_sufficient (H : Hashes) (S : SortFn) (get : Store) (D : List Cid) (hD : ∀ c, get c ≠ none → c ∈ D)
+    (n : Nat) (hn : D.length < n) (first : Frame) (h : load H S.sort get n first = .err .fuel) :
+    ∃ g, Reach get first g ∧ Reach get g g := by
+  have hc : collect S.sort get n first = .err .fuel := by
+    unfold load at h
+    cases hc : collect S.sort get n first with
+    | err e => rw [hc] at h; simpa using h
+    | ok fs => rw [hc] at h; exact absurd h (finish_ne_fuel H first fs)
+  exact fuel_exhausted_cyclic get D hD n hn first ((collect_err_iff S get n first .fuel).mp hc)
+
 def loopStore : Store := fun c => if c = 7 then some ⟨some 0, none, none, [1], [7]⟩ else none
 example : load toyH SortFn.ins.sort loopStore 50 ⟨some 0, none, none, [1], [7]⟩ = .err .fuel := by decide
 example : Reach loopStore ⟨some 0, none, none, [1], [7]⟩ ⟨some 0, none, none, [1], [7]⟩ :=
